@@ -70,3 +70,6 @@ pub use terminal::{
 
 /// System specific terminal
 pub type SystemTerminal = unix::UnixTerminal;
+
+#[cfg(feature = "verif-hooks")]
+pub use unix::verif_c16;
